@@ -7,7 +7,8 @@
 (* Every event carries t = virtual time (seconds * 1000 + nanoseconds); every change of the virtual clock is followed by an   *)
 (* event of the thread that caused it before any other thread runs (Tick), so `now` is exact at every Lin.                    *)
 (*   Begin{max, dflt, sweep}  Tick{t}  Call{t, th, op, k, v, ttl}  Ret{t, th, op, hit, v, size, hits, misses, ev}              *)
-(*   Settle{t, size, hits, misses, ev}: only the sweeper has been running for three sweep intervals                            *)
+(*   Settle{t, fair, size, hits, misses, ev}: only the sweeper has been running for three sweep intervals; fair = 1: the        *)
+(*                  scheduler never let the clock jump while the sweeper's thread could run (otherwise it owes nothing yet)     *)
 (*   Life{t, op}  End{outcome}                                                                                                 *)
 EXTENDS TraceBase, TtlMapOps, Integers
 VARIABLES lru, now, st, pend, cfg
@@ -51,7 +52,7 @@ EvRet == /\ IsEv("Ret") /\ Time /\ pend[Ev.th].st = "lin" /\ pend[Ev.th].op = Ev
          /\ P(Ev.th, Idle) /\ UNCHANGED <<lru, st, cfg>>
 \* after three idle sweep intervals: nothing that has been expired for a whole interval is still there; the counters agree
 EvSettle == /\ IsEv("Settle") /\ Time
-            /\ \A i \in 1..Len(lru) : lru[i].exp + cfg.sweep > Ev.t
+            /\ (Ev.fair = 1) => \A i \in 1..Len(lru) : lru[i].exp + cfg.sweep > Ev.t
             /\ Ev.size = Len(lru) /\ Ev.hits = st.hits /\ Ev.misses = st.misses /\ Ev.ev = st.ev
             /\ UNCHANGED <<lru, st, pend, cfg>>
 EvEnd == IsEv("End") /\ Ev.outcome = "done" /\ (\A t \in Thr : pend[t].st = "idle") /\ UNCHANGED <<lru, now, st, pend, cfg>>
